@@ -106,11 +106,34 @@ def result_switches(b, sym, facts, wbb):
     """switch blocks that test (the discriminant of) a value derived from the call in block wbb; returns
     list of (switch_bb, success_targets, failure_targets)."""
     out = []
+    out_bool = []
     for i in sorted(b.live_blocks()):
         t = b.term(i)
         if t["k"] != "switch":
             continue
         e = sym.op(t["on"])
+        if t.get("on_ty") == "bool":
+            # `if result.is_err()` / `if result.is_ok()` on the call's result (possibly through map_err and a local)
+            neg = False
+            c = e
+            while c[0] == "un" and c[1] == "Not":
+                c = c[2]
+                neg = not neg
+            if c[0] == "call" and c[1].rsplit("::", 1)[-1] in ("is_err", "is_ok") and c[2]:
+                x = c[2][0]
+                hit = mentions(x, wbb)
+                if not hit and x[0] == "local":
+                    hit = any(d[0] == "call" and (d[1] == wbb or mentions(sym.op(d[2]["args"][0]) if d[2]["args"] else ("?",), wbb)) or
+                              (d[0] == "assign" and mentions(sym.rvalue(d[3]), wbb)) for d in b.defs_of(x[1]))
+                if hit:
+                    ok_when_true = (c[1].rsplit("::", 1)[-1] == "is_ok") != neg
+                    tt, ff = [], []
+                    for v, tb in t["targets"]:
+                        (tt if v == 1 else ff).append(tb)
+                    (ff if 0 not in [v for v, _ in t["targets"]] and 1 in [v for v, _ in t["targets"]] else tt).append(t["otherwise"]) if t["otherwise"] not in tt + ff else None
+                    succ_t, fail_t = (tt, ff) if ok_when_true else (ff, tt)
+                    out_bool.append((i, sorted(set(succ_t)), sorted(set(fail_t))))
+            continue
         if e[0] != "discr" or not mentions(e, wbb):
             continue
         vm = _variants_for_discr(b, facts, t, i)
@@ -128,7 +151,8 @@ def result_switches(b, sym, facts, wbb):
             tb = explicit.get(d, t["otherwise"])
             (succ_t if n in succ_names else fail_t).append(tb)
         out.append((i, sorted(set(succ_t)), sorted(set(fail_t))))
-    return out
+    # is_err()/is_ok() tests count only when the result is not matched directly
+    return out or out_bool
 
 
 def _count_result_layers(ty):
